@@ -42,9 +42,9 @@ HARNESSES = [
     dict(name="pm1.cmd.outb", src="C04/pm1_cmd.c", entry="harness_outb", defines=["OUTB_HARNESS"], rename_defs=dict(BITS, **{"lib/pma_common.c": ["update_history_list"]}),
          unwind=3, flags=["--arrays-uf-always"], units=["lib/pm1_decoder.c:outputted_byte"], timeout=120, bounds="x"),
     dict(name="pm1.cmd.read", src="C04/pm1_cmd.c", entry="harness_read", defines=["READ_HARNESS", "BS_N=9", "ALIGN0"], backend="cadical",
-         rename_defs=dict(BITS, **{"lib/pma_common.c": ["find_in_history_list"], "lib/pm1_decoder.c": ["outputted_byte", "read_copy_command"]}),
+         rename_defs=dict(BITS, **{"lib/pm1_decoder.c": ["read_byte", "outputted_byte", "read_copy_command"]}),
          unwind=3, unwindset=dict(PM1U, **{"load_bits.0": 10, "read_byte_block.0": 5, "harness_read.0": 5, "harness_read.1": 5}),
-         units=["lib/pm1_decoder.c:lha_pm1_read,read_start_header,read_byte_block,read_byte_block_count,read_byte,read_byte_decode_index"], timeout=300, bounds="x"),
+         units=["lib/pm1_decoder.c:lha_pm1_read,read_start_header,read_byte_block,read_byte_block_count"], timeout=300, bounds="x"),
     dict(name="pm1.cmd.block", src="C04/pm1_cmd.c", entry="harness_block", defines=["BLOCK_HARNESS"], backend="cadical", rename_defs=dict(BITS, **{"lib/pm1_decoder.c": ["read_byte", "outputted_byte", "read_copy_command"]}),
          unwind=3, unwindset=dict(PM1U, **{"load_bits.0": 9, "read_byte_block.0": 218}),
          units=["lib/pm1_decoder.c:read_byte_block,read_byte_block_count"], timeout=300, bounds="x"),
